@@ -77,16 +77,19 @@ def touch_interrupted(f, k):
     try:
         for view in (str, lambda x: x.s, len, lambda x: x.width, lambda x: x.divides):
             BUILD["interrupted_views"] += 1
+            # every third interruption is an allocation failure instead of a Ctrl-C
+            fp.raise_class = inject.InjectMemoryError if k % 3 == 0 else inject.Inject
             fp.arm(k)
             try:
                 view(f)
-            except inject.Inject:
+            except (inject.Inject, inject.InjectMemoryError):
                 BUILD["interrupts_fired"] += 1
             except Exception:  # noqa
                 pass
             finally:
                 fp.disarm()
     finally:
+        fp.raise_class = inject.Inject
         fp.mon.set_events(fp.tool, 0)
     return f
 
